@@ -932,6 +932,190 @@ theorem check_accepts_near_rotation (detK : Mat3 ℝ → ℝ) (hdet : ∀ M, det
     constructor <;> linarith [t1.1, t1.2, t2.1, t2.2, t3.1, t3.2, t4.1, t4.2, t5.1, t5.2, t6.1, t6.2]
   exact (mat2SO3_ok_iff detK rtol atol R _).mpr ⟨horth, hdetok, rfl⟩
 
+/-! ## 12. pass 10: the in-band Euler bound on all nine entries -/
+/-- **in-band Euler bound, first column and third row**: for every unit `X` and `eps ≥ 0`, inside the gimbal band the entries
+(0,0), (1,0), (2,1), (2,2) of the matrix rebuilt from `euler()` are within `2·√(1−t2²)` of `X.matrix()`, entry (2,0) is equal, and
+`1−t2² ≤ 2·eps` -/
+theorem euler_band_column_row (eps : ℝ) (heps : 0 ≤ eps) (p : Quat ℝ) (h : p.normSq = 1) (hband : eulerRegular eps p = false) :
+    let M := eulerMat (SO3euler eps p)
+    let R := SO3matrix p
+    let d := Real.sqrt (1 - (2 * (p.w * p.y - p.z * p.x)) ^ 2)
+    |M.r0.x - R.r0.x| ≤ 2 * d ∧ |M.r1.x - R.r1.x| ≤ 2 * d ∧ M.r2.x = R.r2.x ∧ |M.r2.y - R.r2.y| ≤ 2 * d ∧ |M.r2.z - R.r2.z| ≤ 2 * d ∧
+      d ^ 2 ≤ 2 * eps := by
+  intro M R d
+  obtain ⟨hb, hrow, h20⟩ := euler_t2_bounds p h
+  obtain ⟨e20, erow, _, hsmall⟩ := euler_band_third_row_partial eps p h
+  have hcol := euler_first_column p h
+  have hd0 : 0 ≤ d := Real.sqrt_nonneg _
+  have hnn : 0 ≤ 1 - (2 * (p.w * p.y - p.z * p.x)) ^ 2 := by rw [← hrow]; positivity
+  have hdd : d ^ 2 = 1 - (2 * (p.w * p.y - p.z * p.x)) ^ 2 := Real.sq_sqrt hnn
+  obtain ⟨c1, c2⟩ := abs_le_of_sq_add_sq _ _ d hd0 (by rw [hcol, hdd])
+  obtain ⟨r1, r2⟩ := abs_le_of_sq_add_sq _ _ d hd0 (by rw [hrow, hdd])
+  have hr2 := erow hband
+  -- the model's matrix in the band: roll = 0, cos(pitch) = d
+  have hT := eulerT_unit p h
+  obtain ⟨hlo, hhi⟩ := abs_le.mp hb
+  have hclamp := sclamp_of_mem _ hlo hhi
+  have hasin := sasin_real _ hb
+  have hpitch : (SO3euler eps p).y = Real.arcsin (2 * (p.w * p.y - p.z * p.x)) := by
+    unfold SO3euler; simp only [hT, k_real, Nat.cast_one, hclamp, hasin]
+  have hroll : (SO3euler eps p).x = 0 := by unfold SO3euler; simp [hband]
+  have m00 : M.r0.x = Real.cos (SO3euler eps p).z * d := by
+    show (eulerMat (SO3euler eps p)).r0.x = _
+    unfold eulerMat rotX rotY rotZ
+    lie_unfold
+    simp only [sin_real, cos_real, hpitch, hroll, Real.cos_arcsin, Real.sin_zero, Real.cos_zero]
+    ring
+  have m10 : M.r1.x = Real.sin (SO3euler eps p).z * d := by
+    show (eulerMat (SO3euler eps p)).r1.x = _
+    unfold eulerMat rotX rotY rotZ
+    lie_unfold
+    simp only [sin_real, cos_real, hpitch, hroll, Real.cos_arcsin, Real.sin_zero, Real.cos_zero]
+    ring
+  have hc := Real.cos_le_one (SO3euler eps p).z
+  have hc' := Real.neg_one_le_cos (SO3euler eps p).z
+  have hs := Real.sin_le_one (SO3euler eps p).z
+  have hs' := Real.neg_one_le_sin (SO3euler eps p).z
+  have m2 : M.r2 = ⟨-(2 * (p.w * p.y - p.z * p.x)), 0, d⟩ := hr2
+  refine ⟨?_, ?_, e20, ?_, ?_, ?_⟩
+  · rw [m00]; exact abs_mul_sub_le _ _ _ (abs_le.mpr ⟨hc', hc⟩) hd0 c1
+  · rw [m10]; exact abs_mul_sub_le _ _ _ (abs_le.mpr ⟨hs', hs⟩) hd0 c2
+  · rw [m2]; simp only []; rw [abs_le] at r1 ⊢; constructor <;> linarith
+  · rw [m2]; simp only []; rw [abs_le] at r2 ⊢; constructor <;> linarith
+  · rw [hdd]; exact hsmall hband heps
+
+/-- **in-band Euler bound, remaining 2×2 block**: for every unit `X` and `0 ≤ eps ≤ 1/25`, inside the gimbal band the entries
+(0,1), (0,2), (1,1), (1,2) of the rebuilt matrix are within `48·√(1−|t2|)` of `X.matrix()`, and `1−|t2| ≤ eps` -/
+theorem euler_band_block (eps : ℝ) (heps : 0 ≤ eps) (heps1 : eps ≤ 1 / 25) (p : Quat ℝ) (h : p.normSq = 1)
+    (hband : eulerRegular eps p = false) :
+    let M := eulerMat (SO3euler eps p)
+    let R := SO3matrix p
+    let e := Real.sqrt (1 - |2 * (p.w * p.y - p.z * p.x)|)
+    |M.r0.y - R.r0.y| ≤ 48 * e ∧ |M.r0.z - R.r0.z| ≤ 48 * e ∧ |M.r1.y - R.r1.y| ≤ 48 * e ∧ |M.r1.z - R.r1.z| ≤ 48 * e ∧
+      e ^ 2 ≤ eps := by
+  intro M R e
+  obtain ⟨hb, hrow, h20⟩ := euler_t2_bounds p h
+  have h' : p.x * p.x + p.y * p.y + p.z * p.z + p.w * p.w = 1 := h
+  have hT := eulerT_unit p h
+  obtain ⟨hlo, hhi⟩ := abs_le.mp hb
+  have hclamp := sclamp_of_mem _ hlo hhi
+  have hasin := sasin_real _ hb
+  have hpitch : (SO3euler eps p).y = Real.arcsin (2 * (p.w * p.y - p.z * p.x)) := by
+    unfold SO3euler; simp only [hT, k_real, Nat.cast_one, hclamp, hasin]
+  have hroll : (SO3euler eps p).x = 0 := by unfold SO3euler; simp [hband]
+  have hyaw : (SO3euler eps p).z = -2 * spm (2 * (p.w * p.y - p.z * p.x)) * Complex.arg ⟨p.w, p.x⟩ := by
+    unfold SO3euler; simp [hband, hT]
+  have hnn : 0 ≤ 1 - |2 * (p.w * p.y - p.z * p.x)| := by linarith
+  have he0 : 0 ≤ e := Real.sqrt_nonneg _
+  have hee : e * e = 1 - |2 * (p.w * p.y - p.z * p.x)| := Real.mul_self_sqrt hnn
+  have hnot : ¬ |2 * (p.w * p.y - p.z * p.x)| < 1 - eps := by
+    intro hlt; have := (eulerRegular_iff eps p h).mpr hlt; rw [hband] at this; exact absurd this (by simp)
+  have hge : 1 - eps ≤ |2 * (p.w * p.y - p.z * p.x)| := not_lt.mp hnot
+  have hsmall : e * e ≤ eps := by linarith
+  have he1 : e ≤ 1 / 5 := by
+    by_contra hc
+    have hc' := not_le.mp hc
+    nlinarith
+  obtain ⟨hC, hS⟩ := cos_sin_two_arg p.w p.x
+  -- entries of the model's matrix in the band
+  have m01 : M.r0.y = -Real.sin (SO3euler eps p).z := by
+    show (eulerMat (SO3euler eps p)).r0.y = _
+    unfold eulerMat rotX rotY rotZ
+    lie_unfold
+    simp only [sin_real, cos_real, hroll, Real.sin_zero, Real.cos_zero]
+    ring
+  have m02 : M.r0.z = Real.cos (SO3euler eps p).z * (2 * (p.w * p.y - p.z * p.x)) := by
+    show (eulerMat (SO3euler eps p)).r0.z = _
+    unfold eulerMat rotX rotY rotZ
+    lie_unfold
+    simp only [sin_real, cos_real, hpitch, hroll, Real.sin_arcsin hlo hhi, Real.sin_zero, Real.cos_zero]
+    ring
+  have m11 : M.r1.y = Real.cos (SO3euler eps p).z := by
+    show (eulerMat (SO3euler eps p)).r1.y = _
+    unfold eulerMat rotX rotY rotZ
+    lie_unfold
+    simp only [sin_real, cos_real, hroll, Real.sin_zero, Real.cos_zero]
+    ring
+  have m12 : M.r1.z = Real.sin (SO3euler eps p).z * (2 * (p.w * p.y - p.z * p.x)) := by
+    show (eulerMat (SO3euler eps p)).r1.z = _
+    unfold eulerMat rotX rotY rotZ
+    lie_unfold
+    simp only [sin_real, cos_real, hpitch, hroll, Real.sin_arcsin hlo hhi, Real.sin_zero, Real.cos_zero]
+    ring
+  have r01 : R.r0.y = 2 * (p.x * p.y - p.w * p.z) := by
+    show (SO3matrix p).r0.y = _
+    unfold SO3matrix; lie_unfold; ring
+  have r02 : R.r0.z = 2 * (p.x * p.z + p.w * p.y) := by
+    show (SO3matrix p).r0.z = _
+    unfold SO3matrix; lie_unfold; ring
+  have r11 : R.r1.y = 1 - 2 * (p.x * p.x + p.z * p.z) := by
+    show (SO3matrix p).r1.y = _
+    unfold SO3matrix; lie_unfold; ring
+  have r12 : R.r1.z = 2 * (p.y * p.z - p.w * p.x) := by
+    show (SO3matrix p).r1.z = _
+    unfold SO3matrix; lie_unfold; ring
+  rw [m01, m02, m11, m12, r01, r02, r11, r12, hyaw]
+  refine (and_assoc.mp (and_assoc.mp (and_assoc.mp ⟨?_, by rw [pow_two]; exact hsmall⟩)))
+  by_cases ht : 2 * (p.w * p.y - p.z * p.x) < 0
+  · have hσ : spm (2 * (p.w * p.y - p.z * p.x)) = -1 := by simp [spm, ht]
+    have habs : |2 * (p.w * p.y - p.z * p.x)| = -(2 * (p.w * p.y - p.z * p.x)) := abs_of_neg ht
+    have e1 : -2 * (-1 : ℝ) * Complex.arg ⟨p.w, p.x⟩ = 2 * Complex.arg ⟨p.w, p.x⟩ := by ring
+    rw [hσ, e1]
+    obtain ⟨c1, c2, c3, c4⟩ := band_block_core p.x (-p.y) (-p.z) p.w e _ _ (by linarith) he0 he1
+      (by rw [hee, habs]; ring) hC hS
+    refine ⟨⟨⟨?_, ?_⟩, ?_⟩, ?_⟩
+    · exact le_of_eq_of_le ((congrArg abs (by ring)).trans (abs_neg _)) c1
+    · exact le_of_eq_of_le ((congrArg abs (by ring)).trans (abs_neg _)) c2
+    · exact le_of_eq_of_le (congrArg abs (by ring)) c3
+    · exact le_of_eq_of_le (congrArg abs (by ring)) c4
+  · have hσ : spm (2 * (p.w * p.y - p.z * p.x)) = 1 := by simp [spm, ht]
+    have habs : |2 * (p.w * p.y - p.z * p.x)| = 2 * (p.w * p.y - p.z * p.x) := abs_of_nonneg (not_lt.mp ht)
+    have e1 : -2 * (1 : ℝ) * Complex.arg ⟨p.w, p.x⟩ = -(2 * Complex.arg ⟨p.w, p.x⟩) := by ring
+    rw [hσ, e1, Real.sin_neg, Real.cos_neg]
+    obtain ⟨c1, c2, c3, c4⟩ := band_block_core p.x p.y p.z p.w e _ _ h' he0 he1
+      (by rw [hee, habs]) hC hS
+    refine ⟨⟨⟨?_, ?_⟩, ?_⟩, ?_⟩
+    · exact le_of_eq_of_le (congrArg abs (by ring)) c1
+    · exact le_of_eq_of_le (congrArg abs (by ring)) c2
+    · exact le_of_eq_of_le (congrArg abs (by ring)) c3
+    · exact le_of_eq_of_le (congrArg abs (by ring)) c4
+
+/-- **the full in-band Euler bound** (`LieTensor.euler` docstring: in the gimbal band "roll is set to zero and yaw carries the
+whole rotation"): for every unit `X`, every `0 ≤ eps ≤ 1/25` (the code's `eps = 2e-4` included) and `X` inside the band
+(`eulerRegular eps X = false`, i.e. `|t2| ≥ 1 − eps`), the matrix rebuilt from the returned angles is within `48·√eps` of
+`X.matrix()` in **every one of the nine entries**.  (Outside the band the rebuild is exact, `euler2SO3_euler`; at exact lock it
+is exact too, `euler_gimbal_lock_exact`.  The constant 48 is not tight.) -/
+theorem euler_band_full (eps : ℝ) (heps : 0 ≤ eps) (heps1 : eps ≤ 1 / 25) (p : Quat ℝ) (h : p.normSq = 1)
+    (hband : eulerRegular eps p = false) :
+    Mat3.Near (48 * Real.sqrt eps) (eulerMat (SO3euler eps p)) (SO3matrix p) := by
+  obtain ⟨a00, a10, a20, a21, a22, hd⟩ := euler_band_column_row eps heps p h hband
+  obtain ⟨b01, b02, b11, b12, he⟩ := euler_band_block eps heps heps1 p h hband
+  have hs0 : 0 ≤ Real.sqrt eps := Real.sqrt_nonneg _
+  have hss : Real.sqrt eps * Real.sqrt eps = eps := Real.mul_self_sqrt heps
+  have hd0 : 0 ≤ Real.sqrt (1 - (2 * (p.w * p.y - p.z * p.x)) ^ 2) := Real.sqrt_nonneg _
+  have he0 : 0 ≤ Real.sqrt (1 - |2 * (p.w * p.y - p.z * p.x)|) := Real.sqrt_nonneg _
+  generalize Real.sqrt (1 - (2 * (p.w * p.y - p.z * p.x)) ^ 2) = d at *
+  generalize Real.sqrt (1 - |2 * (p.w * p.y - p.z * p.x)|) = e at *
+  generalize Real.sqrt eps = s at *
+  have hds : d ≤ 2 * s := by
+    by_contra hc
+    have hc' := not_le.mp hc
+    nlinarith
+  have hes : e ≤ s := by
+    by_contra hc
+    have hc' := not_le.mp hc
+    nlinarith
+  refine ⟨⟨?_, ?_, ?_⟩, ⟨?_, ?_, ?_⟩, ⟨?_, ?_, ?_⟩⟩
+  · linarith
+  · linarith
+  · linarith
+  · linarith
+  · linarith
+  · linarith
+  · rw [a20]; simp; positivity
+  · linarith
+  · linarith
+
 /-! ### non-vacuity: the hypotheses are satisfiable by non-trivial values -/
 
 /-- rotation by exactly π about the x axis (`w = 0`): region 0, recovered exactly -/
@@ -1037,5 +1221,19 @@ example : mat2SO3 Mat3.det true (1/100000) (1/100000) (⟨⟨1, 1/10000000, 0⟩
   · refine ⟨⟨?_, ?_, ?_⟩, ⟨?_, ?_, ?_⟩, ⟨?_, ?_, ?_⟩⟩ <;> lie_unfold <;> norm_num [abs_of_pos]
   · norm_num
   · norm_num
+
+/-- `euler_band_full` / `euler_band_column_row` / `euler_band_block` have an instance: exact gimbal lock with the code's
+`eps = 2e-4` (hypotheses `0 ≤ eps ≤ 1/25`, unit norm, inside the band all hold) -/
+example : Mat3.Near (48 * Real.sqrt (1 / 5000))
+    (eulerMat (SO3euler (1 / 5000 : ℝ) (⟨0, Real.sqrt (1 / 2), 0, Real.sqrt (1 / 2)⟩ : Quat ℝ)))
+    (SO3matrix (⟨0, Real.sqrt (1 / 2), 0, Real.sqrt (1 / 2)⟩ : Quat ℝ)) := by
+  have hs := Real.mul_self_sqrt (show (0 : ℝ) ≤ 1 / 2 by norm_num)
+  have hu : (⟨0, Real.sqrt (1 / 2), 0, Real.sqrt (1 / 2)⟩ : Quat ℝ).normSq = 1 := by lie_unfold; linarith
+  refine euler_band_full _ (by norm_num) (by norm_num) _ hu ?_
+  apply Bool.eq_false_iff.mpr; intro hc
+  have := (eulerRegular_iff _ _ hu).mp hc
+  simp only [] at this
+  rw [show 2 * (Real.sqrt (1 / 2) * Real.sqrt (1 / 2) - 0 * 0) = 1 by rw [hs]; norm_num, abs_one] at this
+  norm_num at this
 
 end PP
